@@ -307,23 +307,36 @@ def render(units, placement):
 IDENT = re.compile(r"[A-Za-z_]\w*")
 
 
+ORDERS = ("sorted", "reversed", "rotated")
+
+
 def run_case(job, acc: Acc):
-    shape, n, placement = job
+    shape, n, placement = job[:3]
+    order = job[3] if len(job) > 3 else "sorted"
     sc = worker_scratch("c20")
     sc.wipe()
     files = render(SHAPES[shape](n), placement)
     for rel, text in files.items():
         sc.write(rel, text)
-    desc = f"{shape} n={n} {placement}"
+    desc = f"{shape} n={n} {placement}" + ("" if order == "sorted" else f" load order {order}")
     tags = {"shape": shape}
     t0 = time.time()
     s = Server([])
+    if order != "sorted":
+        # the order in which start-up meets the files of a ring (a dimension the cycle guards must not depend on)
+        real = s.srv._get_source_files
+
+        def scripted():
+            lst = sorted(real())
+            return lst[::-1] if order == "reversed" else lst[len(lst) // 2:] + lst[:len(lst) // 2]
+
+        s.srv._get_source_files = scripted
     resp, other = s.initialize(sc.path)
     transcript = [resp] + other
     if "error" in resp:
         acc.case(nontrivial_key=desc, outcome="init_error")
         acc.violation(Violation("cycles", {"family": "cycles", "method": "initialize", "obs": "error", **tags},
-                                {"shape": shape, "n": n, "placement": placement}, "result", str(resp["error"].get("message"))[:200], what=desc))
+                                {"shape": shape, "n": n, "placement": placement, "order": order}, "result", str(resp["error"].get("message"))[:200], what=desc))
         return
     slow = []
     for rel, text in sorted(files.items()):
@@ -337,13 +350,13 @@ def run_case(job, acc: Acc):
             for o in out:
                 if "id" in o and "method" not in o:
                     acc.violation(Violation("cycles", {"family": "cycles", "method": act, "obs": "response_to_notification", **tags},
-                                            {"shape": shape, "n": n, "placement": placement}, None, str(o)[:200], what=desc))
+                                            {"shape": shape, "n": n, "placement": placement, "order": order}, None, str(o)[:200], what=desc))
                 if o.get("method") == "window/showMessage" and o["params"].get("type") == 1:
                     acc.violation(Violation("cycles", {"family": "cycles", "method": act, "obs": "error_message", **tags},
-                                            {"shape": shape, "n": n, "placement": placement}, "no error message", o["params"]["message"][:200], what=f"{desc}: {o['params']['message'][:120]}"))
+                                            {"shape": shape, "n": n, "placement": placement, "order": order}, "no error message", o["params"]["message"][:200], what=f"{desc}: {o['params']['message'][:120]}"))
                 if o.get("method") == "textDocument/publishDiagnostics":
                     c09.check_result(s, "cycles", "publishDiagnostics", o["params"]["diagnostics"], o["params"]["uri"],
-                                     {"shape": shape, "n": n, "placement": placement, "file": rel}, acc, tags)
+                                     {"shape": shape, "n": n, "placement": placement, "order": order, "file": rel}, acc, tags)
         lines = text.split("\n")
         for ln, line in enumerate(lines):
             code = line.split("!")[0]
@@ -361,9 +374,9 @@ def run_case(job, acc: Acc):
             if "error" in r:
                 site, exc = c09._site(r["error"])
                 acc.violation(Violation("cycles", {"family": "cycles", "method": method.split("/")[1], "obs": "error", "site": site, "exc": exc, **tags},
-                                        {"shape": shape, "n": n, "placement": placement, "file": rel}, "result", str(r["error"].get("message"))[:200], what=desc))
+                                        {"shape": shape, "n": n, "placement": placement, "order": order, "file": rel}, "result", str(r["error"].get("message"))[:200], what=desc))
             else:
-                c09.check_result(s, "cycles", method, r["result"], None, {"shape": shape, "n": n, "placement": placement, "file": rel}, acc, tags)
+                c09.check_result(s, "cycles", method, r["result"], None, {"shape": shape, "n": n, "placement": placement, "order": order, "file": rel}, acc, tags)
     # second pass: every file is edited on disk and saved, then edited in the buffer
     # (re-parse, re-resolution of includes and links on an index that already has them)
     for rel, text in sorted(files.items()):
@@ -385,10 +398,10 @@ def run_case(job, acc: Acc):
             for o in out:
                 if "id" in o and "method" not in o:
                     acc.violation(Violation("cycles", {"family": "cycles", "method": phase + "_edit", "obs": "response_to_notification", **tags},
-                                            {"shape": shape, "n": n, "placement": placement}, None, str(o)[:200], what=desc))
+                                            {"shape": shape, "n": n, "placement": placement, "order": order}, None, str(o)[:200], what=desc))
                 if o.get("method") == "window/showMessage" and o["params"].get("type") == 1:
                     acc.violation(Violation("cycles", {"family": "cycles", "method": phase + "_edit", "obs": "error_message", **tags},
-                                            {"shape": shape, "n": n, "placement": placement}, "no error message", o["params"]["message"][:200], what=f"{desc}: {o['params']['message'][:120]}"))
+                                            {"shape": shape, "n": n, "placement": placement, "order": order}, "no error message", o["params"]["message"][:200], what=f"{desc}: {o['params']['message'][:120]}"))
         lines = text.split("\n")
         for ln, line in enumerate(lines):
             m = IDENT.search(line.split("!")[0])
@@ -399,13 +412,13 @@ def run_case(job, acc: Acc):
     r, _ = s.request("workspace/symbol", {"query": "zz_none"})
     if "result" not in r:
         acc.violation(Violation("cycles", {"family": "cycles", "method": "liveness", "obs": "error", **tags},
-                                {"shape": shape, "n": n, "placement": placement}, "result", str(r)[:200], what=desc))
+                                {"shape": shape, "n": n, "placement": placement, "order": order}, "result", str(r)[:200], what=desc))
     if "RecursionError" in str(transcript) or "maximum recursion" in str(transcript):
         acc.violation(Violation("cycles", {"family": "cycles", "method": "transcript", "obs": "recursion_text", **tags},
-                                {"shape": shape, "n": n, "placement": placement}, None, "RecursionError text in transcript", what=desc))
+                                {"shape": shape, "n": n, "placement": placement, "order": order}, None, "RecursionError text in transcript", what=desc))
     for sl in slow:
         acc.violation(Violation("cycles", {"family": "cycles", "method": sl[0], "obs": "slow", **tags},
-                                {"shape": shape, "n": n, "placement": placement}, f"< {REQUEST_BUDGET_S}s", str(sl), what=desc))
+                                {"shape": shape, "n": n, "placement": placement, "order": order}, f"< {REQUEST_BUDGET_S}s", str(sl), what=desc))
     acc.case(nontrivial_key=desc, outcome=(shape, n))
     acc.count("workspaces")
     acc.count("wall_ms", int((time.time() - t0) * 1000))
@@ -414,21 +427,23 @@ def run_case(job, acc: Acc):
 
 
 def on_timeout(case, acc: Acc):
-    shape, n, placement = case
+    shape, n, placement = case[:3]
+    order = case[3] if len(case) > 3 else "sorted"
     acc.violation(Violation("cycles", {"family": "cycles", "method": "any", "obs": "timeout", "shape": shape},
-                            {"shape": shape, "n": n, "placement": placement}, "bounded time", "workspace exceeded the time budget",
-                            what=f"{shape} n={n} {placement}"))
+                            {"shape": shape, "n": n, "placement": placement, "order": order}, "bounded time", "workspace exceeded the time budget",
+                            what=f"{shape} n={n} {placement} {order}"))
 
 
 def main(ctx):
     nmax = 4 if ctx.quick else 6
     ctx.rule = (f"every shape of the cycle catalogue ({len(SHAPES)} shapes) x cycle length 1..{nmax} x placement (one file / "
-                "unit per file); per workspace: start-up indexing, didOpen+didSave of every file, nine positional requests "
+                "unit per file; there in three start-up load orders: sorted, reversed, rotated); per workspace: start-up indexing, didOpen+didSave of every file, nine positional requests "
                 "at every identifier and after every '%', documentSymbol, workspace/symbol. Non-trivial: all; distinct by "
                 "(shape, length, placement); evaluations counts requests.")
     ctx.assumptions = [f"time budget {REQUEST_BUDGET_S}s per request, 45 s per workspace (watchdog)",
                        "the recursion limit is the one the server sets itself (1000)"]
-    jobs = [(sh, n, pl) for sh in SHAPES for n in range(1, nmax + 1) for pl in ("single", "files")]
+    jobs = [(sh, n, pl, od) for sh in SHAPES for n in range(1, nmax + 1) for pl in ("single", "files")
+            for od in (ORDERS if pl == "files" and n > 1 else ORDERS[:1])]
     acc = core.pmap(run_case, jobs, chunk=1, budget_s=45, on_timeout=on_timeout, label="C20")
     ctx.add_family("cycles", acc, shapes=len(SHAPES), max_length=nmax)
 
@@ -436,5 +451,5 @@ def main(ctx):
 def replay(rec):
     c = rec["case"]
     acc = Acc()
-    run_case((c["shape"], c["n"], c["placement"]), acc)
+    run_case((c["shape"], c["n"], c["placement"], c.get("order", "sorted")), acc)
     return [v.to_json("C20") for v in acc.violations] or None
